@@ -170,7 +170,7 @@ func runC06(c *Ctx) {
 			c.J.Log("CASE %s %s", Case("grid", idx), sc.String())
 			o := runLife(c, sc, "C06", procs, salt, rep, gi)
 			reportLife(c, "C06", "grid", idx, sc, o)
-			if o.Inconclusive != "" || c.R.NumViolations() > 12 {
+			if o.Inconclusive != "" || c.R.NumViolations() > 6 {
 				return // do not let one undecided scenario (or a tree that fails everywhere) cascade through the batch
 			}
 			if o.Fingerprint != "" {
